@@ -5,4 +5,4 @@ NEXT Next
 VIEW View
 CHECK_DEADLOCK FALSE
 ACTION_CONSTRAINT Emit
-PROPERTY P_C01a P_C01b P_C02a P_C02b P_C02c P_C03a P_C03b P_C14a P_C14b P_C14c P_C16
+PROPERTY P_C01a P_C01b P_C02a P_C02b P_C02c P_C03a P_C03b P_C14a P_C14b P_C14c P_C14d P_C16
